@@ -8,6 +8,18 @@ REPLAY = {"*": "c12.replay_unknown_type"}
 
 def setup(E):
     transport.declare_c12(E)
+    # Transport._send_message, assumed by every property that counts what a handler sends: it hands the message to the
+    # packetizer exactly once, unchanged (the ghost record of the packetizer's send is the one the callers' contracts use)
+    T = "paramiko.transport.Transport."
+    c = dict(E.contracts[T + "_send_message"])
+    pk = dict(params={"data": "obj:Message"}, returns="none", ghost=dict(c["ghost"]), raises=dict(c["raises"]), modifies=[])
+    global TARGETS
+    TARGETS = [t for t in TARGETS if not (isinstance(t, tuple) and t[1] == "own-body")]
+    TARGETS.append((T + "_send_message", "own-body", dict(
+        c, ghost=None,
+        ensures={"handed_to_the_packetizer_exactly_once_and_unchanged":
+                 "ghost('sent_count') == old(ghost('sent_count')) + 1 and ghost('last_sent') == data.packet.getvalue()"},
+        **{"+contracts": {"paramiko.packet.Packetizer.send_message": pk}})))
 
 CLAIMED = True
 LEVEL_TEXT = ("Proof over one arbitrary iteration of Transport.run's dispatch loop (the loop body's real AST verified as a "
